@@ -248,7 +248,7 @@ func runRec12(c Rec12Case, r *pbt.R) {
 	}
 	// plaintext as the record layer hands it to the cipher: content, or content||type||zeros for tls12_cid
 	plain := payload
-	h := ref.Hdr12{Type: byte(c.Type), Version: [2]byte{0xfe, 0xfd}, Epoch: uint16(c.Epoch), Seq: c.Seq} //nolint:gosec
+	h := ref.Hdr12{Type: byte(c.Type), Version: [2]byte{0xfe, 0xfd}, Epoch: uint16(c.Epoch), Seq: c.Seq}                                                 //nolint:gosec
 	libHdr := recordlayer.Header{ContentType: protocol.ContentType(c.Type), Version: protocol.Version1_2, Epoch: uint16(c.Epoch), SequenceNumber: c.Seq} //nolint:gosec
 	if len(cid) > 0 {
 		plain = append(append(append([]byte(nil), payload...), byte(c.Type)), make([]byte, c.Pad)...)
